@@ -409,7 +409,7 @@ def run(ck):
     # proof-only modules that need Mathlib (not imported by the driver): the chord-error lemma over the reals, and
     # monotonicity / idempotence of the model's concrete rounding functions => C13_increasing for the IEEE instance
     extra_thms = []
-    for mod, nmin in (('MpVerif.C13.PropsGen', 17), ('MpVerif.C13.PropsIEEE', 8), ('MpVerif.C13.Chord', 5), ('MpVerif.C13.ChordRun', 5), ('MpVerif.C13.ChordApprox', 4)):
+    for mod, nmin in (('MpVerif.C13.PropsGen', 23), ('MpVerif.C13.PropsIEEE', 8), ('MpVerif.C13.Chord', 5), ('MpVerif.C13.ChordRun', 5), ('MpVerif.C13.ChordApprox', 4)):
         okm, outm = ck.lake([mod])
         if not okm:
             bad_decls = ck.failing_decls(outm, mod.replace('.', '/') + '.lean')
